@@ -398,10 +398,72 @@ def run_program(program, props):
     return None, "ok"
 
 
+async def _directed_reentrant(use_async):
+    """A factory declared for two types publishes the second one itself (a plain add_resource on the requesting context) while it
+    generates: the generation event must then announce exactly the keys the product was stored under - the requested type only.
+    Returns a list of (property, message)."""
+    from asphalt.core import current_context
+
+    class DA:
+        pass
+
+    class DB:
+        pass
+    out = []
+    async with Context() as ctx:
+        pub = DB()
+
+        def fac():
+            current_context().add_resource(pub, types=[DB])
+            return DA()
+
+        async def afac():
+            current_context().add_resource(pub, types=[DB])
+            await anyio.sleep(0)
+            return DA()
+        tx, rx = create_memory_object_stream(100)
+        with ctx.resource_added._subscribe(tx):
+            ctx.add_resource_factory(afac if use_async else fac, types=[DA, DB])
+            got = (await ctx.get_resource(DA)) if use_async else ctx.get_resource_nowait(DA)
+            evs = []
+            while True:
+                try:
+                    e = rx.receive_nowait()
+                except WouldBlock:
+                    break
+                evs.append((tuple(e.resource_types), e.is_factory))
+        stored = tuple(t for t in (DA, DB) if (t, "default") in ctx._resources and ctx._resources[(t, "default")].value is got)
+        want = [((DA, DB), True), ((DB,), False), (stored, False)]
+        if evs != want:
+            out.append(("C18", f"re-entrant factory ({'async' if use_async else 'sync'} lookup): events {evs!r}, but the product is stored under {stored!r}"))
+        if ctx._resources[(DB, "default")].value is not pub:
+            out.append(("C03", "re-entrant factory: the resource published during generation was replaced by the product"))
+        cont = ctx._resources[(DA, "default")]
+        if tuple(cont.types) != stored:
+            out.append(("C04", f"re-entrant factory: container types {tuple(cont.types)!r} differ from the keys it is stored under {stored!r}"))
+    return out
+
+
+def directed(prop):
+    """the directed scenarios of this property: returns (input, message) of the first one that fails, or None"""
+    for use_async in (False, True):
+        try:
+            res = anyio.run(_directed_reentrant, use_async)
+        except BaseException:               # a scenario that cannot run on this tree decides nothing; the random search still runs
+            res = []
+        for (p, msg) in res:
+            if p == prop:
+                return {"directed": "reentrant-factory", "use_async": use_async}, f"[{p}] {msg}"
+    return None
+
+
 def make_harness(prop):
     def search(seed, budget):
         n = 3000 if budget == "quick" else 25000
         seen = set()
+        d = directed(prop)
+        if d is not None:
+            return {"violation": True, "input": d[0], "detail": d[1], "evaluations": 1, "distinct": 1}
         for i in range(n):
             prog = gen_program(seed, i)
             seen.add(repr(prog))
@@ -414,7 +476,8 @@ def make_harness(prop):
                         _continue_other(prop, seed, i, n, seen, p, msg)
         return {"violation": False, "evaluations": n, "distinct": len(seen),
                 "scope": "random programs of add_resource / add_resource_factory / lookups / nested child contexts / operations during teardown, "
-                         "before entry and after close; depth <= 3, <= 7 ops per block, 3 types, 2 names"}
+                         "before entry and after close; depth <= 3, <= 7 ops per block, 3 types, 2 names; plus 2 directed scenarios (a factory that publishes "
+                         "another of its own types while generating, sync and async lookup)"}
 
     def _continue_other(prop, seed, start, n, seen, p0, msg0):
         # keep searching for a divergence tagged with *this* property; remember that another property diverged
@@ -428,6 +491,9 @@ def make_harness(prop):
                 "scope": "random context programs (see ctx_model.py)"}
 
     def replay(inp):
+        if "directed" in inp:
+            res = [(p, m) for (p, m) in anyio.run(_directed_reentrant, inp["use_async"]) if p == prop]
+            return bool(res), "; ".join(f"[{p}] {m}" for (p, m) in res) or "directed scenario behaves as specified"
         p, msg = run_program(gen_program(inp["seed"], inp["index"]), [prop])
         return p == prop, f"[{p}] {msg}"
     return search, replay
